@@ -230,7 +230,7 @@ fn jplace<'tcx>(cx: &Cx<'tcx>, body: &Body<'tcx>, p: &Place<'tcx>) -> J {
     for (base, elem) in p.iter_projections() {
         match elem {
             ProjectionElem::Deref => projs.push(J::s("*")),
-            ProjectionElem::Field(f, _) => {
+            ProjectionElem::Field(f, fty) => {
                 let pty = base.ty(&body.local_decls, tcx);
                 let mut name: Option<String> = None;
                 match pty.ty.kind() {
@@ -246,7 +246,7 @@ fn jplace<'tcx>(cx: &Cx<'tcx>, body: &Body<'tcx>, p: &Place<'tcx>) -> J {
                     }
                     _ => {}
                 }
-                let mut o = J::obj().set("f", J::Int(f.as_usize() as i128));
+                let mut o = J::obj().set("f", J::Int(f.as_usize() as i128)).set("ty", J::s(format!("{}", fty)));
                 if let Some(n) = name {
                     o.put("n", J::s(n));
                 }
